@@ -103,6 +103,10 @@ pub mod atomic {
                 .unwrap()
             }))
         }
+        /// The flag's id in the current execution (assigned on first use); lets a harness tell flags apart.
+        pub fn verif_id(&self) -> Option<usize> {
+            self.id()
+        }
         pub fn load(&self, o: Ordering) -> bool {
             if let Some(id) = self.id() {
                 point(Op::Load(id));
